@@ -39,6 +39,23 @@ add("C11", "proof",
     "contract-based deductive verification: functional contracts over symbolic byte arrays with uninterpreted hashes, z3/cvc5",
     "DESIGN.md section 4 C11")
 
+add("C15", "proof",
+    "Frame and purity obligations decided by an interprocedural effects analysis on go/ssa of the working tree: (E1) no library function writes package-level memory and no mutable package-level variable exists, (E2) the stateless API writes none of its arguments (receiver included), (E3) each such call is a function of its arguments: no randomness (randomizedSigning is provably constant false, seed==nil is provably dead), no time, no map-iteration order, no goroutines, no unsafe beyond misc.GetEndian, (E4) XMSS methods write only memory reachable from their receiver and constructors return memory reachable from no argument or global. With the Go memory model's DRF theorem these exclude data races for the property's call patterns and give history-independence. SMT frame obligations of the C15-tagged entry points are checked as well.",
+    "No schedule is executed and no race detector is run (DESIGN.md section 4 C15): data-race freedom is derived from frame conditions under the assumed Go memory model (T9); thread-safety/determinism of the standard library and x/crypto are assumed; js.Object plumbing excluded.",
+    "contract-based verification of frame/purity clauses: interprocedural write/read/purity analysis on go/ssa (effects back end) plus SMT frame obligations",
+    "DESIGN.md section 4 C15")
+add("C02", "proof",
+    "Index automaton as contracts on the real xmssFastUpdate, xmssFastSignMessage, (*XMSS).SetIndex, (*XMSS).Sign, XMSSFastGenKeyPair, initializeTree with the object invariant xmssInv (sk length, parameter set, buffer shapes, idx <= 2^h): refusals 'index too high'/'cannot rewind' occur exactly under the stated conditions and leave all caller-visible memory unchanged (frame obligation at every panic exit); a successful Sign embeds the old index in the signature and increments it by exactly one (byte-level big-endian arithmetic proved exactly); sk[4:132], seed, descriptor are in no assigns set. Every history follows by induction over the per-operation contracts.",
+    "BDS traversal functions (bdsRound, bdsTreeHashUpdate, treeHashSetup) are not symbolically executed: their assigns clauses (only *bdsState / the node buffer) and purity are discharged by the effects back end; NewBDSState's shape contract is trusted (append of pointers) and exercised by the label run of C01. If hMsg refuses an over-long message the index has already advanced (safe direction).",
+    "contract-based deductive verification: per-operation contracts + object invariant, VCs from the typed Go AST, z3/cvc5; frames of trusted callees by go/ssa effects analysis",
+    "DESIGN.md section 4 C02")
+
+add("C16", "proof",
+    "Contracts on the six string wrappers of qrllib-js: for hex input of the exact length, with and without a 0x prefix (four prefix combinations for the verifiers), the wrapper's result equals the core function applied to the decoded bytes: address validators and address derivations against the cores' functional contracts (SHAKE uninterpreted), verifiers against the uninterpreted function that the cores' `pure` contracts introduce (purity discharged by the effects back end); for non-hex input false / empty string; no run-time fault for any string. The check found that the xmssjs wrappers rejected 0x-prefixed input (fixed, known_findings.json).",
+    "Assumed contracts on encoding/hex.DecodeString/EncodeToString and strings.HasPrefix (T5); the core's explicit refusals (XMSS size/type guards) propagate through XMSSVerify / GetXMSSAddressFromPK.",
+    "contract-based deductive verification: functional contracts over symbolic strings, assumed library contracts, z3/cvc5; purity by go/ssa effects analysis",
+    "DESIGN.md section 4 C16")
+
 reasons = {}
 for p in ALL:
     if p not in checks:
